@@ -244,15 +244,111 @@ impl<T: std::cmp::PartialEq + std::fmt::Display + std::fmt::Debug> Element<T> {
         }
         name
     }
+
+    /// assign a struct name to each element that is rendered as a struct, addressed by the path of element names from the root
+    ///
+    /// the name is the one given by expand_name; a number is appended if that name is reserved
+    /// or was already given to an earlier struct (e.g. siblings `Foo` and `foo`, or `<d><c/></d>` next to `<d_c/>`)
+    fn compute_struct_names(
+        &self,
+        trace_length: &HashMap<String, usize>,
+    ) -> HashMap<Vec<String>, String> {
+        fn fill_struct_names<T>(
+            element: &Element<T>,
+            path: &mut Vec<String>,
+            trace: &mut Vec<String>,
+            trace_length: &HashMap<String, usize>,
+            used_names: &mut Vec<String>,
+            struct_names: &mut HashMap<Vec<String>, String>,
+        ) where
+            T: PartialEq,
+            T: std::fmt::Display,
+            T: std::fmt::Debug,
+        {
+            path.push(element.name.to_string());
+            trace.push(element.formatted_name());
+
+            let name = element.expand_name(trace, trace_length);
+            let mut unused_name = name.clone();
+            let mut i = 0;
+
+            while used_names.contains(&unused_name) {
+                i += 1;
+                unused_name = format!("{}{}", name, i);
+            }
+
+            used_names.push(unused_name.clone());
+            struct_names.insert(path.clone(), unused_name);
+
+            // independent of Options::sort, so that sorting does not change any name
+            let mut children: Vec<&Element<T>> =
+                element.children.iter().map(|c| c.inner_t()).collect();
+            children.sort_by_key(|c| c.position);
+
+            for child in children {
+                if !child.contains_only_text() {
+                    fill_struct_names(child, path, trace, trace_length, used_names, struct_names);
+                }
+            }
+
+            trace.pop();
+            path.pop();
+        }
+
+        let mut used_names: Vec<String> = RESERVED_STRUCT_NAMES
+            .iter()
+            .map(|n| n.to_string())
+            .collect();
+        let mut struct_names = HashMap::new();
+
+        fill_struct_names(
+            self,
+            &mut Vec::new(),
+            &mut Vec::new(),
+            trace_length,
+            &mut used_names,
+            &mut struct_names,
+        );
+
+        struct_names
+    }
 }
+
+/// names that cannot be used for a generated struct:
+/// `Self` is a keyword, `String`, `Option` and `Vec` are the types of the generated fields,
+/// `Serialize` and `Deserialize` are imported by the generated header and the default derive attribute
+const RESERVED_STRUCT_NAMES: [&str; 6] = [
+    "Self",
+    "String",
+    "Option",
+    "Vec",
+    "Serialize",
+    "Deserialize",
+];
 
 impl<T: std::cmp::PartialEq + std::fmt::Display + std::fmt::Debug + std::clone::Clone> Element<T> {
     /// generate a String representing this element and all children elements recursivly as series of Rust structs
     /// those struct can be used to (de)serialize an XML document
     pub fn to_serde_struct(&self, options: &Options) -> String {
         let trace_length = self.compute_name_hints();
+        let struct_names = self.compute_struct_names(&trace_length);
         let mut trace = Vec::new();
-        self.inner_to_serde_struct(options, &mut trace, &trace_length)
+        let mut path = Vec::new();
+        self.inner_to_serde_struct(options, &mut trace, &trace_length, &mut path, &struct_names)
+    }
+
+    /// return the struct name of the element at the end of the given path (see compute_struct_names)
+    fn struct_name(
+        &self,
+        trace: &[String],
+        trace_length: &HashMap<String, usize>,
+        path: &[String],
+        struct_names: &HashMap<Vec<String>, String>,
+    ) -> String {
+        match struct_names.get(path) {
+            Some(name) => name.clone(),
+            None => self.expand_name(trace, trace_length),
+        }
     }
 
     /// generate a String representing this element and all children elements recursivly as series of Rust structs
@@ -262,11 +358,14 @@ impl<T: std::cmp::PartialEq + std::fmt::Display + std::fmt::Debug + std::clone::
         options: &Options,
         trace: &mut Vec<String>,
         trace_length: &HashMap<String, usize>,
+        path: &mut Vec<String>,
+        struct_names: &HashMap<Vec<String>, String>,
     ) -> String {
         let mut serde_struct = String::new();
         let mut serde_child_struct = String::new();
 
         trace.push(self.formatted_name());
+        path.push(self.name.to_string());
 
         if !options.derive.is_empty() {
             serde_struct.push_str(&format!("#[derive({})]\n", options.derive));
@@ -274,7 +373,7 @@ impl<T: std::cmp::PartialEq + std::fmt::Display + std::fmt::Debug + std::clone::
 
         serde_struct.push_str(&format!(
             "pub struct {} {{\n",
-            self.expand_name(trace, trace_length)
+            self.struct_name(trace, trace_length, path, struct_names)
         ));
 
         let mut used_attr_names = vec![];
@@ -357,6 +456,7 @@ impl<T: std::cmp::PartialEq + std::fmt::Display + std::fmt::Debug + std::clone::
 
             if !text_only_element {
                 trace.push(child.inner_t().formatted_name());
+                path.push(child_real_name);
             }
 
             if child.inner_t().standalone() {
@@ -368,7 +468,7 @@ impl<T: std::cmp::PartialEq + std::fmt::Display + std::fmt::Debug + std::clone::
                             if text_only_element {
                                 "String".to_string()
                             } else {
-                                c.expand_name(trace, trace_length)
+                                c.struct_name(trace, trace_length, path, struct_names)
                             }
                         ));
                     }
@@ -379,7 +479,7 @@ impl<T: std::cmp::PartialEq + std::fmt::Display + std::fmt::Debug + std::clone::
                             if text_only_element {
                                 "String".to_string()
                             } else {
-                                c.expand_name(trace, trace_length)
+                                c.struct_name(trace, trace_length, path, struct_names)
                             }
                         ));
                     }
@@ -393,7 +493,9 @@ impl<T: std::cmp::PartialEq + std::fmt::Display + std::fmt::Debug + std::clone::
                             if text_only_element {
                                 "String".to_string()
                             } else {
-                                child.inner_t().expand_name(trace, trace_length)
+                                child
+                                    .inner_t()
+                                    .struct_name(trace, trace_length, path, struct_names)
                             }
                         ));
                     }
@@ -404,7 +506,9 @@ impl<T: std::cmp::PartialEq + std::fmt::Display + std::fmt::Debug + std::clone::
                             if text_only_element {
                                 "String".to_string()
                             } else {
-                                child.inner_t().expand_name(trace, trace_length)
+                                child
+                                    .inner_t()
+                                    .struct_name(trace, trace_length, path, struct_names)
                             }
                         ));
                     }
@@ -413,11 +517,14 @@ impl<T: std::cmp::PartialEq + std::fmt::Display + std::fmt::Debug + std::clone::
 
             if !text_only_element {
                 trace.pop();
+                path.pop();
 
                 serde_child_struct.push_str(&child.inner_t().inner_to_serde_struct(
                     options,
                     trace,
                     trace_length,
+                    path,
+                    struct_names,
                 ));
             }
         }
@@ -427,6 +534,7 @@ impl<T: std::cmp::PartialEq + std::fmt::Display + std::fmt::Debug + std::clone::
         serde_struct.push_str(&serde_child_struct);
 
         trace.pop();
+        path.pop();
 
         serde_struct
     }
